@@ -1391,6 +1391,6 @@ def replay(record):
 
 MANIFEST = {
     "technique": "TLA+ model of alphabets, sequence objects, complement, codon tables/translation and k-mer codes (specs/C03) model-checked by TLC; every enumerated call and every transition of the sequence-object machine executed against the real classes; recorded random histories re-computed by TLC",
-    "level_text": "TLC enumerates every single call on alphabets of 1, 2, 4, 15, 24 and 94 letters (all 256 byte values through the encoder, codes around every range border incl. 255/256) and on alphabets of arbitrary hashables, the mapper between every compatible pair, all DNA strings up to length 5 (7 in the thorough tier) through translate (complete and ORF mode, 2 codon tables x 3 start sets x met_start) and create_kmers (bases 3 and 4, k 2..3, contiguous and spaced), all k-mers incl. invalid codes through fuse/split, every (base, k) with base in {2,4,5,24,94} (thorough: also 3,20,200,1000) and k up to the int64 limit (k*bitlength(base) <= 62) through fuse/split/encode/decode/create_kmers on pattern sequences with the codes compared digit by digit, and sequence objects (general, nucleotide unambiguous/ambiguous, protein) of length <= 3 through construction, str, every index kind in every form numpy accepts (Python int, numpy integer scalars int8..uint64, lists, integer/bool ndarrays), assignment, +, reverse, ==, copy, complement, and derive-write-read histories (copy/reverse/complement/+ then an assignment to the result, the source or the other operand: only the written object changes); it proves that the code-shaped byte table, complement mapper, radix number, per-frame ORF scan and rolling k-mer code equal the declarative definitions. Every (call, result) pair and every transition of a 3-call machine of two live objects (the sequence at hand and the one it was derived from, lengths 0, 1 and 3) is executed against the real classes; random alphabets, longer sequences, several dtypes, random codon tables and random k are covered by recorded histories that TLC re-computes.",
+    "level_text": "TLC enumerates every single call on alphabets of 1, 2, 4, 15, 24 and 94 letters (all 256 byte values through the encoder, codes around every range border incl. 255/256) and on alphabets of arbitrary hashables, the mapper between every compatible pair, all DNA strings up to length 5 (7 in the thorough tier) through translate (complete and ORF mode, 2 codon tables x 3 start sets x met_start) and create_kmers (bases 3 and 4, k 2..3, contiguous and spaced), all k-mers incl. invalid codes through fuse/split, every (base, k) with base in {2,4,5,24,94} (thorough: also 3,20,200,1000) and k up to the int64 limit (k*bitlength(base) <= 62) through fuse/split/encode/decode/create_kmers on pattern sequences with the codes compared digit by digit, and sequence objects (general, nucleotide unambiguous/ambiguous, protein) of length <= 3 through construction, str, every index kind in every form numpy accepts (Python int, numpy integer scalars int8..uint64, lists, integer/bool ndarrays), assignment, +, reverse, ==, copy, complement, and derive-write-read histories (copy/reverse/complement/+ then an assignment to the result, the source or the other operand: only the written object changes); it proves that the code-shaped byte table, complement mapper, radix number, per-frame ORF scan and rolling k-mer code equal the declarative definitions. Every (call, result) pair and every transition of a 3-call machine of two live objects (the sequence at hand and the one it was derived from, lengths 0, 1 and 3) is executed against the real classes; random alphabets, longer sequences, several dtypes, random codon tables and random k are covered by recorded histories that TLC re-computes. Recorded map events also use 'wide' alphabets of Python ints (targets of 257-330 symbols, i.e. 16-bit codes, with the shared symbols at codes >= 256, in both directions).",
     "level_note": "Bounded as stated; k-mer codes beyond int64, memory sharing between a sub-sequence obtained by indexing and its source, the content of the built-in codon tables, lower-case/3-letter input normalisation, PositionalSequence and symbol frequency are not decided. Defects in codec.pyx / kmeralphabet.pyx cannot be repaired here (no Cython) and are recorded as known findings. Trusted: TLC, the TLA+ value parser, numpy, the projection through get_symbols()/.code.",
 }
